@@ -24,6 +24,8 @@ type Event struct {
 	PC   int // length of the path condition when the event happened
 	Pos  string
 	Seq  int
+	Extra []Value // values captured by closures passed to / spawned by the event (for uses())
+	ExtraT []types.Type
 }
 
 type LockHeld struct {
@@ -42,6 +44,7 @@ type deferred struct {
 
 // frame is one activation (the function being verified, or an inlined callee).
 type frame struct {
+	entryClock int // allocation clock at entry (objects born later are local to this activation)
 	fn     *ssa.Function
 	vals   map[ssa.Value]Value
 	defers []deferred
